@@ -596,6 +596,10 @@ def option_events(M, seed):
                 add(2, g, {k: val}, False, f"{k}:{vc}:num")
                 add(2, g, {k: val}, True, f"{k}:{vc}:num")
             add(3, g, {k: "0"}, True, f"{k}:below_min:str")
+        # block_size 1 is the one value for which the cost limit n < 2**(16*r) binds below the format's maximum:
+        # admissible only together with a cost <= 15, and every LATER change of the cost alone must be re-checked
+        add(1, g, {"block_size": 1, "rounds": 10}, False, "block_size+rounds:r1_low_cost")
+        add(2, g, {"block_size": 1, "default_rounds": 12, "max_rounds": 15}, False, "block_size+window:r1_low_window")
         add(2, g, {"block_size": 8}, False, "block_size:default:num")
         add(2, g, {"parallelism": 1}, False, "parallelism:at_min:num")
         add(2, g, {"block_size": 1 << 15, "parallelism": 1 << 15}, False, "block_size+parallelism:product_above_max")
